@@ -626,7 +626,7 @@ pub fn exec_server_events(c: &SCase) -> Outcome {
 fn sstrat(_t: Tier) -> BoxedStrategy<SCase> {
     let trig = (0u16..120, any::<u8>(), prop::bool::weighted(0.2)).prop_map(|(at, consumer, nowait)| Trigger { at, consumer, nowait });
     (
-        prop::sample::select(vec![4096u32, 4097, 8192]),
+        prop::sample::select(vec![4096u32, 4097, 8192, 131072]),
         1u8..=4,
         1u8..=4,
         vec((1u8..=40, -1i8..=1), 1..=4),
@@ -660,7 +660,7 @@ pub fn parts() -> Vec<Box<dyn PartDyn>> {
     }),
     Box::new(Part::<SCase> {
         name: "server-events",
-        rule: "one channel with 1-4 consumers whose owner publishes 1-4 messages of 1-40 body frames (frame_max 4096/4097/8192, mem_channel_bound 1-4, so the publisher hands its frames to the I/O thread one by one) while the server, on seeing a generated frame of that content stream (method, header or k-th body frame), cancels one of the consumers (Basic.Cancel, 20 % nowait) - which makes the I/O thread itself write Basic.CancelOk on the publishing channel; oracle: on the decoded wire every publish is Publish, header, bodies with nothing in between (a CancelOk may stand between two publishes, never inside one), every cancel with reply is answered exactly once, every cancelled consumer sees ServerCancelled, all calls and the close succeed; non-trivial = a CancelOk was written after the first publish had begun and before the last one ended (or anywhere, for a single publish); distinct by case hash",
+        rule: "one channel with 1-4 consumers whose owner publishes 1-4 messages of 1-40 body frames (frame_max 4096/4097/8192/131072 - bodies of up to 5 MB -, mem_channel_bound 1-4, so the publisher hands its frames to the I/O thread one by one) while the server, on seeing a generated frame of that content stream (method, header or k-th body frame), cancels one of the consumers (Basic.Cancel, 20 % nowait) - which makes the I/O thread itself write Basic.CancelOk on the publishing channel; oracle: on the decoded wire every publish is Publish, header, bodies with nothing in between (a CancelOk may stand between two publishes, never inside one), every cancel with reply is answered exactly once, every cancelled consumer sees ServerCancelled, all calls and the close succeed; non-trivial = a CancelOk was written after the first publish had begun and before the last one ended (or anywhere, for a single publish); distinct by case hash",
         cases: |t| t.pick(1500, 30_000),
         threads: 16,
         strategy: sstrat,
